@@ -107,11 +107,17 @@ def wrapper_part(ctx, r):
   q = ctx.quick
   inv = [x for x in c15.INVS if x != 'EpisodeReplays']
   n = 0
-  for i in range(4 if q else 40):
+  for i in range(5 if q else 44):
     L, R = r.randint(3, 12), r.randint(1, 3)
     sl = r.randint(8, 30)
     B = r.randint(2, 8)
     scheds = [[1 if r.random() < r.choice([0.05, 0.25]) else 0 for _ in range(sl)] for _ in range(B)]
+    if i % 5 == 4:
+      # a batch of ONE, and a batch whose members are all the same: "the member alone" is itself a batch, and whatever
+      # a wrapper derives from the batch as a whole coincides with the member there
+      R = r.randint(2, 3)
+      scheds = [[1 if r.random() < 0.3 else 0 for _ in range(sl)]] * r.choice([1, 1, 3])
+      B = len(scheds)
     order = r.choice(['wrap', 'create', 'randomized'])
     gains = [r.randint(1, 4) for _ in range(B)] if order == 'randomized' else None
     tr = c15.run_config(ctx, r, L, R, order, scheds, r.randint(10, 40), use_eval=False, random_actions=True, gains=gains,
